@@ -8,6 +8,7 @@ cd /verif
 if [ -n "$(git -C /repo status --porcelain --untracked-files=no)" ]; then echo "/repo is not clean"; exit 2; fi
 git -C /repo apply "$patch" || { echo "patch does not apply"; exit 2; }
 trap 'git -C /repo checkout -- . ; git -C /repo clean -fdq parser/src/snapshots 2>/dev/null' EXIT
+./check --setup >/dev/null 2>&1   # all four worker builds at once, in parallel
 for p in $props; do
   out=$(./check $p --tier $tier 2>&1); rc=$?
   nv=$(echo "$out" | grep -c '^VIOLATION')
